@@ -245,8 +245,13 @@ def gen_doc(rng, reals, n=None, outside=None):
         if not objects:
             objects.append(((max_id + 1, 0), I(1)))
             max_id += 1
-        o = objects[0][0]
-        objects.insert(1, ((o[0], (o[1] + 1) % 65536 if o[1] < 65535 else 0), I(2)))
+        keep = [oo for oo, ob in objects if not dropped(sx_parse(ob.replace('@', 'A')))]
+        if not keep:
+            objects.append(((max_id + 1, 0), I(1)))
+            max_id += 1
+            keep = [objects[-1][0]]
+        o = keep[0]
+        objects.append(((o[0], (o[1] + 1) % 65536 if o[1] < 65535 else 0), I(2)))
         objects.sort(key=lambda p: p[0])
     elif outside == 'above-max-id':
         objects.append(((max_id + rng.choice([1, 3]), 0), I(3)))
@@ -260,7 +265,10 @@ def gen_doc(rng, reals, n=None, outside=None):
     elif outside == 'trailer-prev':
         trailer.append((b'Prev', I(rng.choice([0, 9, 10 ** 6]))))
     doc = DOC(version.encode('utf-8'), mark, trailer, objects, max_id)
+    # ids later revisions may replace: written objects, except the integer another stream's Length refers to
+    # (overwriting it with something else is the editor's error, not the writer's)
     written = [o for o, ob in objects if not dropped(sx_parse(ob.replace('@', 'A')))]
+    g.frozen_ids = [len_id]
     return g.finish(doc), L('sops', *sops), written, max_id, g
 
 
@@ -280,7 +288,7 @@ def gen_revs(rng, reals, g, ids, max_id, fmt, nrev):
     """edits for nrev incremental updates.  New objects get the ids add_object will hand out; the
     generator tracks them so that later revisions can replace them."""
     revs = []
-    live = list(ids)          # ids present in the file (the writer's skip types never are)
+    live = [i for i in ids if i not in getattr(g, 'frozen_ids', [])]   # ids a revision may replace
     # max_id of the reloaded document = highest object number in the cross-reference data:
     # the XRef stream itself (old max_id + 1) for the stream format, the highest written object for the table
     cur_max = max_id + 1 if fmt == 'stream' else max([i for i, _ in ids] + [0])
@@ -381,7 +389,9 @@ def controls(file_bytes, is_stream):
             out.append(('W-narrow', b[:m2.start()] + b'/W[1 4 1]' + b[m2.end():], ('xref-stream-Length', 'xref-stream-W')))
             out.append(('W-two', b[:m2.start()] + b'/W[1 4  ]' + b[m2.end():], ('xref-stream-W',)))
     m3 = re.search(rb'/Length (\d+)>>stream\n', b)
-    if m3 and not is_stream and int(m3.group(1)) >= 1 and len(str(int(m3.group(1)) - 1)) == len(m3.group(1)):
+    # (a body ending in CR is skipped: one byte less is then the same file under ISO's optional EOL before endstream)
+    if m3 and not is_stream and int(m3.group(1)) >= 1 and len(str(int(m3.group(1)) - 1)) == len(m3.group(1)) \
+            and b[m3.end() + int(m3.group(1)) - 1:m3.end() + int(m3.group(1))] != b'\r':
         out.append(('Length-1', b[:m3.start(1)] + str(int(m3.group(1)) - 1).encode() + b[m3.end(1):], ('stream-Length',)))
     return [c for c in out if c[0] != 'skip']
 
@@ -562,8 +572,14 @@ def run(ctx):
             m = re.match(r'\(err (\S+) ', o)
             key = '%s -> %s' % (name, m.group(1) if m else 'ACCEPTED')
             control_rules[key] = control_rules.get(key, 0) + 1
-            if not m:                       # damage must be rejected; which rule fires first is recorded, not asserted
-                control_failures.append((i, name, o))
+            if not m:
+                # damage must be rejected (which rule fires first is recorded, not asserted) -- or, where ISO is
+                # ambiguous (Length one short of a body ending in CR), at least be read as different objects
+                s0, n0 = index[i]
+                if o == strict_all[s0 + n0 - 1]:
+                    control_failures.append((i, name, o))
+                else:
+                    control_rules[key + ' (different objects)'] = control_rules.pop(key, 1)
     # known findings
     kf = {e['id']: e for e in vlib.known_findings(prop)}
     for fid, e in sorted(kf.items()):
